@@ -38,6 +38,10 @@ def run_batch(ctx, module, cfg, cases, observers, sigfn, negfn=None, chunk=30000
             ctx.evaluations += 1
             if v == "triv":
                 continue
+            if v.startswith("EXT:"):
+                # behaviour the specification covers beyond the listed properties: a divergence is a NOTE, never a violation
+                ctx.ext_divergence(v, {"observer": o, "input": i})
+                continue
             if v == "ok":
                 h = hash((o, i["_k"])) if isinstance(i, dict) and "_k" in i else hash(json.dumps([o, i], sort_keys=True))
                 if h not in seen:
@@ -110,7 +114,9 @@ def replay_one(ctx, module, cfg, observers, body, sigfn, env=None):
     v = ctx.validate(module, cfg, [ev], env=env)[0]
     ctx.evaluations += 1
     print("replay verdict: %s" % v)
-    if v not in ("ok", "triv"):
+    if v.startswith("EXT:"):
+        ctx.ext_divergence(v, case)
+    elif v not in ("ok", "triv"):
         ctx.violation(v, sigfn(o, i, ev, v), case)
     else:
         ctx.nontrivial += 1 if v == "ok" else 0
